@@ -11,6 +11,18 @@ from ..oracles import c14_batches as O
 
 PAD = -100  # pydrobert.torch.config.INDEX_PAD_VALUE (documented constant)
 
+# sizes on both sides of typical implementation thresholds (block sizes, special paths)
+SIZES = [15, 16, 17, 31, 32, 33, 63, 64, 65, 127, 128, 129, 255, 256, 257, 1023, 1024, 1025, 2049]
+BIG_BATCH = [15, 16, 17, 31, 32, 33, 64, 65, 128, 129]
+LAYOUT_POOL = ["own"] * 4 + dirs.LAYOUTS[1:]   # memory layout of a tensor (dirs.with_layout)
+
+
+def _pick(table):
+    """one entry of ``table`` chosen through a single integer: in budgets of a few dozen cases the table's weights are
+    respected much better than by nested sampled_from; shrinks towards table[0]"""
+    table = list(table)
+    return st.integers(0, 10 ** 6).map(lambda v: table[v % len(table)])
+
 
 def _law(fn, *a):
     try:
@@ -37,7 +49,7 @@ def _sampler_case(draw, tier):
     pool = {"int": [0, 1, 2, 3], "str": ["a", "b", "c", "d"], "mixed": [0, "a", 1, "b"], "negint": [-1, 5, 0, -7]}[id_kind]
     nb = draw(st.integers(1, 4))
     ids = pool[:nb]
-    return {
+    case = {
         "N": N,
         "order": list(order),
         "bucket_of": [draw(st.sampled_from(ids)) for _ in range(N)],
@@ -46,21 +58,76 @@ def _sampler_case(draw, tier):
         # a pass that is abandoned after this many batches (peeking at the first batch, a break in the training loop)
         # before the pass that is judged
         "abandon": draw(st.sampled_from([None, None, 1, 2, 0, 3])),
+        # an iterator that is opened, advanced this many batches, held open across the judged pass and finished
+        # after it (two passes over one sampler object in flight at once)
+        "hold": draw(st.sampled_from([None, None, None, 1, 2, 3])),
     }
+    if draw(st.integers(0, 5)) == 5:
+        # sizes across thresholds: the index sequence, bucket map and batch sizes are expanded from these integers
+        # by _expand_sampler (a pure function); N / order / bucket_of / sizes above are then not used
+        case["gen"] = {
+            "N": draw(_pick(SIZES[:15] + SIZES if big else SIZES[:15] * 2 + SIZES)),
+            "nb": draw(_pick([1, 2, 3, 4, 15, 16, 17, 33, 65, 257])),
+            "a": draw(st.integers(1, 50)), "b": draw(st.integers(0, 50)), "c": draw(st.integers(1, 9)),
+            "size_sel": [draw(st.integers(0, 13)) for _ in range(3)],
+            "ids": id_kind, "part": draw(st.sampled_from(["perm", "perm", "sub", "repeat"])),
+        }
+    return case
+
+
+_SAMPLER_SIZES = [1, 2, 3, 5] + BIG_BATCH
+
+
+def _expand_sampler(g):
+    """(order, bucket_of, sizes) for a generated-size case: a permutation i -> (a*i + b) mod N with a made coprime to N
+    (or its first two thirds / itself followed by its first third), buckets in runs of varying length"""
+    import math
+
+    N, nb, a = g["N"], g["nb"], g["a"]
+    while math.gcd(a, N) != 1:
+        a += 1
+    order = [(a * i + g["b"]) % N for i in range(N)]
+    if g["part"] == "sub":
+        order = order[:(2 * N) // 3]
+    elif g["part"] == "repeat":
+        order = order + order[:N // 3]
+
+    def bid(j):
+        if g["ids"] == "str" or (g["ids"] == "mixed" and j % 2):
+            return "b%d" % j
+        return -j if g["ids"] == "negint" else j
+
+    bucket_of = [bid(((i * g["c"]) // 7 + i) % nb) for i in range(N)]
+    sel = g["size_sel"]
+    sizes = [[bid(j), _SAMPLER_SIZES[(sel[j % len(sel)] + j) % len(_SAMPLER_SIZES)]] for j in range(nb)]
+    return order, bucket_of, sizes
 
 
 @subcheck("C14", "bucket_sampler", _sampler_case, quick=2500, thorough=40000,
           doc="BucketBatchSampler over any index sequence (permutation, sub-sequence, with repeats), 1..4 bucket ids "
               "(ints, strings, mixed), sizes 1..5, drop_incomplete: single-bucket batches, per-bucket concatenation == "
               "sub-sequence of the sampler order (minus a tail < one batch when dropping), exact sizes, yield-when-full order",
-          required_classes=["two_buckets_incomplete", "mixed_ids", "drop", "keep", "repeats", "after_abandoned_pass"])
+          required_classes=["two_buckets_incomplete", "mixed_ids", "drop", "keep", "repeats", "after_abandoned_pass",
+                            "iterator_held_open", "n_ge_255", "n_ge_1023", "buckets_ge_15", "batch_size_ge_15",
+                            "batch_size_ge_64", "full_batch_ge_64"])
 def _sampler_check(case):
     from pydrobert.torch import data
 
-    order = case["order"]
-    idx2bucket = {i: b for i, b in enumerate(case["bucket_of"])}
-    bucket2size = {b: s for b, s in case["sizes"]}
+    if case.get("gen"):
+        order, bucket_of, sizes = _expand_sampler(case["gen"])
+    else:
+        order, bucket_of, sizes = case["order"], case["bucket_of"], case["sizes"]
+    idx2bucket = {i: b for i, b in enumerate(bucket_of)}
+    bucket2size = {b: s for b, s in sizes}
     sampler = data.BucketBatchSampler(list(order), dict(idx2bucket), dict(bucket2size), case["drop"])
+    held, held_first = None, []
+    if case.get("hold"):
+        held = iter(sampler)
+        for _ in range(case["hold"]):
+            b = next(held, None)
+            if b is None:
+                break
+            held_first.append(list(b))
     abandoned = False
     if case.get("abandon") is not None:
         it = iter(sampler)
@@ -79,6 +146,19 @@ def _sampler_check(case):
     require(batches[:len(full)] == full and sorted(map(tuple, batches[len(full):])) == sorted(map(tuple, left)),
             "batches differ from the documented procedure (yield when full, leftovers at the end)", batches, full + left)
     cl = ["drop" if case["drop"] else "keep"]
+    if held is not None:
+        # the iterator opened before the judged pass is finished now: it is a pass of its own
+        whole = held_first + [list(b) for b in held]
+        _law(O.bucket_laws, order, whole, idx2bucket, bucket2size, case["drop"])
+        require(whole[:len(full)] == full and sorted(map(tuple, whole[len(full):])) == sorted(map(tuple, left)),
+                "an iterator held open across another pass over the same sampler does not deliver the documented batches",
+                whole, full + left)
+        if held_first:
+            cl.append("iterator_held_open")
+    if len(order) >= 255:
+        cl.append("n_ge_255")
+    if len(order) >= 1023:
+        cl.append("n_ge_1023")
     used = {idx2bucket[i] for i in order}
     if len({type(b) for b in used}) > 1:
         cl.append("mixed_ids")
@@ -90,6 +170,13 @@ def _sampler_check(case):
         cl.append("two_buckets_incomplete")
     if not order:
         cl.append("empty_order")
+    if len(used) >= 15:
+        cl.append("buckets_ge_15")
+    for lim in (15, 64):
+        if any(bucket2size[b] >= lim for b in used):
+            cl.append("batch_size_ge_%d" % lim)
+    if any(len(b) >= 64 for b in batches):
+        cl.append("full_batch_ge_64")
     if abandoned:
         cl.append("after_abandoned_pass")
     return Info(nontrivial=nontrivial or not order, classes=cl)
@@ -101,7 +188,11 @@ def _sampler_check(case):
 @st.composite
 def _lengths(draw, lo, hi, max_n):
     n = dirs.wdraw(draw, (2, st.just(0)), (2, st.integers(1, 3)), (10, st.integers(1, max_n)))
-    kind = draw(st.sampled_from(["any", "any", "distinct", "ties", "ties"]))
+    kind = draw(st.sampled_from(["any", "any", "distinct", "ties", "ties", "wide"]))
+    if kind == "wide":
+        # lengths of one, two and three digits (9/10/11, 99/100/101): orderings that are not numeric show here
+        pool = [v for v in (lo, 2, 9, 10, 11, 12, 20, 99, 100, 101) if v >= lo]
+        return [draw(st.sampled_from(pool)) for _ in range(n)]
     if kind == "distinct":
         vals = draw(st.permutations(list(range(lo, lo + max(n, 1) + 3))))[:n]
         return list(vals)
@@ -111,10 +202,20 @@ def _lengths(draw, lo, hi, max_n):
     return [draw(st.integers(lo, hi)) for _ in range(n)]
 
 
+def _pattern(draw):
+    """call pattern on the loader object before / around the judged passes"""
+    return draw(st.sampled_from([["plain"], ["plain"], ["plain"], ["abandon", 0], ["abandon", 1], ["abandon", 2],
+                                 ["held", 1], ["held", 2], ["held", 3]]))
+
+
 def _loader_common(draw, tier):
     return {
-        "B": draw(st.integers(1, 5)),
-        "K": draw(st.sampled_from([1, 1, 2, 2, 3, 4])),
+        "B": draw(_pick([1, 2, 3, 4, 5] * 4 + [15, 16, 17, 33])),
+        "K": draw(_pick([1, 1, 2, 2, 3, 4] * 3 + [15, 17])),
+        "pattern": _pattern(draw),
+        "share_ds": draw(st.booleans()),          # one data set object handed to every loader of the case
+        "layouts": [draw(st.sampled_from(LAYOUT_POOL)) for _ in range(3)],   # stored feat / ali / ref tensors
+        "fdt": draw(st.sampled_from(["float32", "float32", "float64", "float16"])),
         "dyn": draw(st.booleans()),
         "drop": draw(st.booleans()),
         "shuffle": draw(st.booleans()),
@@ -128,7 +229,7 @@ def _loader_common(draw, tier):
 
 
 def _uid(i):
-    return "u%02d" % i
+    return "u%04d" % i  # zero-padded: the data sets list utterances in string order
 
 
 def _feat_list(i, T, F):
@@ -218,14 +319,62 @@ def _show(batch):
 
 def _run_epochs(case, make, lengths, verify_batch, cl):
     """Two epochs from one loader; len() agreement; reproducibility from a second loader and from
-    setting .epoch; exact index batches. ``verify_batch(batch, idxs, ordered)`` checks collation."""
+    setting .epoch; exact index batches. ``verify_batch(batch, idxs, ordered)`` checks collation.
+
+    case["pattern"]: ["plain"] | ["abandon", k] (a pass given up after k batches before the judged ones) |
+    ["held", k] (an iterator advanced k batches, held open across the judged passes, finished and judged after
+    them).  A pass belongs to the epoch ``loader.epoch`` shows right before its first batch is drawn."""
     N = len(lengths)
     e0 = case["init_epoch"]
+    pat = case.get("pattern") or ["plain"]
+
+    def judge(loader, e, got):
+        full, left = _expected_batches(case, loader, lengths, e, cl)
+        require(len(got) == len(full) + len(left), "number of batches in epoch %d" % e, len(got), len(full) + len(left))
+        seen = []
+        for j, batch in enumerate(got):
+            if j < len(full):
+                idxs = full[j]
+            else:
+                # leftovers come in no documented order: pick the one whose members match
+                idxs = None
+                for cand in left:
+                    if cand is not None and verify_batch(batch, cand, probe=True):
+                        idxs = cand
+                        left[left.index(cand)] = None
+                        break
+                require(idxs is not None, "trailing batch %d of epoch %d is none of the expected leftover batches" % (j, e),
+                        _show(batch), [c for c in left if c is not None])
+            verify_batch(batch, idxs, probe=False)
+            seen.extend(idxs)
+        # coverage, stated directly
+        if not case["drop"]:
+            require(sorted(seen) == list(range(N)), "epoch %d does not deliver every utterance exactly once" % e, sorted(seen), N)
+        else:
+            require(len(set(seen)) == len(seen), "an utterance delivered twice", sorted(seen), None)
+
     with dirs.quiet():
         first = make(e0)
         declared = len(first)
+        held_it, held_first, e_held = None, [], None
+        if pat[0] == "abandon":
+            it = iter(first)
+            for _ in range(pat[1]):
+                if next(it, None) is None:
+                    break
+            del it
+            cl.add("after_abandoned_pass")
+        elif pat[0] == "held" and pat[1] > 0:
+            e_held = first.epoch
+            held_it = iter(first)
+            for _ in range(pat[1]):
+                b = next(held_it, None)
+                if b is None:
+                    break
+                held_first.append(b)
+        e1 = first.epoch
         epochs = []
-        for e in (e0, e0 + 1):
+        for e in (e1, e1 + 1):
             require(first.epoch == e, "loader.epoch before the pass", first.epoch, e)
             n_decl = len(first)
             got = list(first)
@@ -233,39 +382,26 @@ def _run_epochs(case, make, lengths, verify_batch, cl):
             epochs.append(got)
         require(declared == len(epochs[0]), "len(loader) before iterating", declared, len(epochs[0]))
         # reproducibility
-        second = make(e0)
+        second = make(e1)
         again = list(second)
-        require(_same(again, epochs[0]), "two loaders with equal (seed, epoch=%d) deliver different batches" % e0,
+        require(_same(again, epochs[0]), "two loaders with equal (seed, epoch=%d) deliver different batches" % e1,
                 _show(again), _show(epochs[0]))
         third = make(0)
-        third.epoch = e0 + 1
+        third.epoch = e1 + 1
         again = list(third)
-        require(_same(again, epochs[1]), "loader with .epoch set to %d differs from the loader that iterated up to it" % (e0 + 1),
+        require(_same(again, epochs[1]), "loader with .epoch set to %d differs from the loader that iterated up to it" % (e1 + 1),
                 _show(again), _show(epochs[1]))
-        for e, got in zip((e0, e0 + 1), epochs):
-            full, left = _expected_batches(case, first, lengths, e, cl)
-            require(len(got) == len(full) + len(left), "number of batches in epoch %d" % e, len(got), len(full) + len(left))
-            seen = []
-            for j, batch in enumerate(got):
-                if j < len(full):
-                    idxs = full[j]
-                else:
-                    # leftovers come in no documented order: pick the one whose members match
-                    idxs = None
-                    for cand in left:
-                        if cand is not None and verify_batch(batch, cand, probe=True):
-                            idxs = cand
-                            left[left.index(cand)] = None
-                            break
-                    require(idxs is not None, "trailing batch %d of epoch %d is none of the expected leftover batches" % (j, e),
-                            _show(batch), [c for c in left if c is not None])
-                verify_batch(batch, idxs, probe=False)
-                seen.extend(idxs)
-            # coverage, stated directly
-            if not case["drop"]:
-                require(sorted(seen) == list(range(N)), "epoch %d does not deliver every utterance exactly once" % e, sorted(seen), N)
-            else:
-                require(len(set(seen)) == len(seen), "an utterance delivered twice", sorted(seen), None)
+        for e, got in zip((e1, e1 + 1), epochs):
+            judge(first, e, got)
+        if held_it is not None:
+            # the iterator opened before the judged passes is finished now: it is the pass of the epoch it started in
+            got = held_first + list(held_it)
+            require(len(got) == declared, "len(loader) != number of batches of a pass that was held open", declared, len(got))
+            judge(first, e_held, got)
+            if held_first:
+                cl.add("iterator_held_open")
+    if case.get("share_ds"):
+        cl.add("shared_data_set_object")
     if N == 0:
         cl.add("empty_set")
     if len(epochs[0]) != len(epochs[1]):
@@ -293,14 +429,28 @@ def _spect_case(draw, tier):
     return c
 
 
+def _layouts(case, cl=None):
+    """stored-tensor layouts (feat, ali, ref) of a loader case; utterance i uses them rotated by i"""
+    lay = case.get("layouts") or ["own", "own", "own"]
+    if cl is not None:
+        for x in set(lay):
+            if x != "own":
+                cl.add("stored_as_view")
+                cl.add("layout_" + x)
+    return lay
+
+
 def _write_spect(data_dir, case):
     dcase = {"prefix": "", "suffix": ".pt", "ali_dir": case["with_ali"], "ref_dir": case["with_ref"], "utts": []}
+    lay = _layouts(case)
     for i, T in enumerate(case["lens"]):
         dcase["utts"].append({
             "id": _uid(i),
-            "feat": {"T": T, "F": case["F"], "dtype": "float32", "rank": 2, "base": 32 * i},
-            "ali": {"dtype": "int64", "rank": 1, "vals": [(i + t) % 5 for t in range(T)]},
-            "ref": {"dtype": "int64", "dim": 2 if case["ref_2d"] else 1, "width": 3, "rows": _ref_rows(i, case["rlens"][i], T)},
+            "feat": {"T": T, "F": case["F"], "dtype": case.get("fdt", "float32"), "rank": 2, "base": 32 * i,
+                     "layout": lay[i % 3]},
+            "ali": {"dtype": "int64", "rank": 1, "vals": [(i + t) % 5 for t in range(T)], "layout": lay[(i + 1) % 3]},
+            "ref": {"dtype": "int64", "dim": 2 if case["ref_2d"] else 1, "width": 3, "rows": _ref_rows(i, case["rlens"][i], T),
+                    "layout": lay[(i + 2) % 3]},
         })
     dirs.write_dir(data_dir, dcase)
 
@@ -322,8 +472,11 @@ def _spect_items(case):
     return items
 
 
-def _check_spect_batch(batch, items, F, batch_first, sort, has_alis, has_uttids, ref_width, probe=False):
-    """``items``: the utterances in sampler order. Collation must be lossless."""
+def _check_spect_batch(batch, items, F, batch_first, sort, has_alis, has_uttids, ref_width, probe=False, fdt=None,
+                       canon=None):
+    """``items``: the utterances in sampler order. Collation must be lossless.
+    ``fdt``: dtype name the features were given in (the batch must keep it); ``canon``: applied to the feature
+    batch before comparing (used to make NaN comparable)."""
     def fail(what, obs=None, exp=None):
         if probe:
             return False
@@ -343,6 +496,10 @@ def _check_spect_batch(batch, items, F, batch_first, sort, has_alis, has_uttids,
     sizes = feat_sizes.tolist()
     if len(sizes) != n:
         return fail("number of rows in the batch", len(sizes), n)
+    if fdt is not None and feats.dtype != dirs.DTYPES[fdt]:
+        return fail("the feature batch does not keep the dtype of the features", str(feats.dtype), fdt)
+    if canon is not None:
+        feats = canon(feats)
     if batch_first:
         rows_of = lambda t: t  # noqa: E731
     else:
@@ -403,11 +560,14 @@ def _check_spect_batch(batch, items, F, batch_first, sort, has_alis, has_uttids,
               "bucketing of the epoch order; declared buckets are length classes; dynamic sizes by the documented formula; "
               "collation lossless",
           required_classes=["buckets_ge_2", "buckets_incomplete", "tie_at_boundary", "empty_set", "dynamic_sizes_differ",
-                            "shuffle", "drop"])
+                            "shuffle", "drop", "after_abandoned_pass", "iterator_held_open", "shared_data_set_object",
+                            "stored_as_view", "layout_transposed", "layout_offset", "length_ge_10", "length_ge_100",
+                            "batch_size_ge_15", "features_float16", "features_float64", "more_buckets_than_utterances"])
 def _spect_check(case):
     from pydrobert.torch import data
 
     cl = set()
+    _layouts(case, cl)
     items = _spect_items(case)
     lengths = list(case["lens"])
     ref_width = 3 if (case["ref_2d"] and not case["tokens_only"]) else 0
@@ -415,25 +575,49 @@ def _spect_check(case):
         data_dir = os.path.join(root, "data")
         _write_spect(data_dir, case)
 
+        shared = []
+
         def make(init_epoch):
             params = data.SpectDataLoaderParams(batch_size=case["B"], num_length_buckets=case["K"],
                                                 size_batch_by_length=case["dyn"], drop_last=case["drop"])
-            return data.SpectDataLoader(data_dir, params, shuffle=case["shuffle"], batch_first=case["batch_first"],
+            src = data_dir
+            if case.get("share_ds"):
+                if not shared:
+                    shared.append(data.SpectDataSet(data_dir, params=params, suppress_alis=case["suppress_alis"],
+                                                    suppress_uttids=case["suppress_uttids"], tokens_only=case["tokens_only"],
+                                                    warn_on_missing=False))
+                src = shared[0]
+            return data.SpectDataLoader(src, params, shuffle=case["shuffle"], batch_first=case["batch_first"],
                                         sort_batch=case["sort"], init_epoch=init_epoch, seed=case["seed"],
                                         suppress_alis=case["suppress_alis"], suppress_uttids=case["suppress_uttids"],
                                         tokens_only=case["tokens_only"], warn_on_missing=False)
 
         def verify(batch, idxs, probe):
             return _check_spect_batch(batch, [items[i] for i in idxs], case["F"], case["batch_first"], case["sort"],
-                                      not case["suppress_alis"], not case["suppress_uttids"], ref_width, probe=probe)
+                                      not case["suppress_alis"], not case["suppress_uttids"], ref_width, probe=probe,
+                                      fdt=case.get("fdt", "float32"))
 
         _run_epochs(case, make, lengths, verify, cl)
+    if case.get("fdt", "float32") != "float32":
+        cl.add("features_" + case["fdt"])
     return _loader_info(case, lengths, cl)
 
 
 def _loader_info(case, lengths, cl):
     if case["K"] > 1 and _tie_at_boundary(lengths, case["K"]):
         cl.add("tie_at_boundary")
+    for lim in (10, 100, 1023):
+        if lengths and max(lengths) >= lim:
+            cl.add("length_ge_%d" % lim)
+    for lim in (15, 127):
+        if len(lengths) >= lim:
+            cl.add("utterances_ge_%d" % lim)
+    if case["B"] >= 15:
+        cl.add("batch_size_ge_15")
+    if case["K"] >= 15:
+        cl.add("buckets_requested_ge_15")
+    if case["K"] > len(lengths) > 0:
+        cl.add("more_buckets_than_utterances")
     cl.add("shuffle" if case["shuffle"] else "sequential")
     if case["drop"]:
         cl.add("drop")
@@ -507,11 +691,14 @@ def _check_lang_batch(batch, items, batch_first, sort, has_uttids, ref_width, pr
           doc="LangDataLoader over a real reference directory (lengths 0..6 incl. empty), suppress_uttids / tokens_only / 2-D "
               "references, buckets, dynamic sizes, 2 epochs: same laws as spect_loader, length = reference length R",
           required_classes=["buckets_ge_2", "buckets_incomplete", "tie_at_boundary", "empty_set", "buckets_without_uttids",
-                            "buckets_2d_without_uttids"])
+                            "buckets_2d_without_uttids", "after_abandoned_pass", "iterator_held_open",
+                            "shared_data_set_object", "stored_as_view", "layout_transposed", "layout_colslice",
+                            "length_ge_10", "length_ge_100", "batch_size_ge_15"])
 def _lang_check(case):
     from pydrobert.torch import data
 
     cl = set()
+    lay = _layouts(case, cl)
     lengths = list(case["lens"])
     two_d = case["ref_2d"] and not case["tokens_only"]
     items = []
@@ -524,13 +711,20 @@ def _lang_check(case):
         for i, R in enumerate(lengths):
             dcase["utts"].append({"id": _uid(i), "feat": None,
                                   "ref": {"dtype": "int64", "dim": 2 if case["ref_2d"] else 1, "width": 3,
-                                          "rows": _ref_rows(i, R, 9)}})
+                                          "rows": _ref_rows(i, R, 9), "layout": lay[i % 3]}})
         dirs.write_dir(data_dir, dcase)
+        shared = []
 
         def make(init_epoch):
             params = data.LangDataLoaderParams(batch_size=case["B"], num_length_buckets=case["K"],
                                                size_batch_by_length=case["dyn"], drop_last=case["drop"])
-            return data.LangDataLoader(os.path.join(data_dir, "ref"), params, shuffle=case["shuffle"],
+            src = os.path.join(data_dir, "ref")
+            if case.get("share_ds"):
+                if not shared:
+                    shared.append(data.LangDataSet(src, params, suppress_uttids=case["suppress_uttids"],
+                                                   tokens_only=case["tokens_only"]))
+                src = shared[0]
+            return data.LangDataLoader(src, params, shuffle=case["shuffle"],
                                        batch_first=case["batch_first"], sort_batch=case["sort"], init_epoch=init_epoch,
                                        seed=case["seed"], suppress_uttids=case["suppress_uttids"],
                                        tokens_only=case["tokens_only"])
@@ -559,8 +753,12 @@ def _window_case(draw, tier):
         "kind": "window", "lens": lens, "F": draw(st.integers(1, 2)),
         "B": draw(st.integers(1, 5)), "K": 1, "K_ignored": True, "dyn": False,
         "drop": draw(st.booleans()), "shuffle": draw(st.booleans()),
-        "left": draw(st.integers(0, 4)), "right": draw(st.integers(0, 4)), "reverse": draw(st.booleans()),
+        "left": draw(_pick([0, 1, 2, 3, 4] * 3 + [15, 16, 17, 33])), "right": draw(_pick([0, 1, 2, 3, 4] * 3 + [15, 16, 17, 33])),
+        "reverse": draw(st.booleans()),
         "with_ali": draw(st.booleans()), "suppress_uttids": draw(st.booleans()),
+        "pattern": _pattern(draw), "share_ds": draw(st.booleans()),
+        "layouts": [draw(st.sampled_from(LAYOUT_POOL)) for _ in range(3)],
+        "fdt": draw(st.sampled_from(["float32", "float32", "float64"])),
         "seed": draw(st.one_of(st.integers(0, 5), st.integers(0, 2**31 - 1))),
         "init_epoch": draw(st.integers(0, 3)),
     }
@@ -570,11 +768,14 @@ def _window_case(draw, tier):
           doc="ContextWindowDataLoader over a real directory: len == batches yielded, reproducible by (seed, epoch), batches "
               "== consecutive groups of the epoch order; windows == concatenated index-clamped windows of the stored "
               "features (left/right/reverse), alis concatenated, window_sizes and ids attached",
-          required_classes=["window_wider_than_utterance", "empty_set", "drop"])
+          required_classes=["window_wider_than_utterance", "empty_set", "drop", "after_abandoned_pass", "iterator_held_open",
+                            "shared_data_set_object", "stored_as_view", "layout_transposed", "layout_offset",
+                            "context_ge_15", "length_ge_10"])
 def _window_check(case):
     from pydrobert.torch import data
 
     cl = set()
+    _layouts(case, cl)
     lengths = list(case["lens"])
     C = 1 + case["left"] + case["right"]
     feats = [_feat_list(i, T, case["F"]) for i, T in enumerate(lengths)]
@@ -604,17 +805,29 @@ def _window_check(case):
         wcase = dict(case, with_ref=False, ref_2d=False, rlens=[0] * len(lengths))
         _write_spect(data_dir, wcase)
 
+        shared = []
+
         def make(init_epoch):
             params = data.ContextWindowDataLoaderParams(batch_size=case["B"], drop_last=case["drop"],
                                                         context_left=case["left"], context_right=case["right"],
                                                         reverse=case["reverse"])
-            return data.ContextWindowDataLoader(data_dir, params, shuffle=case["shuffle"], init_epoch=init_epoch,
+            src = data_dir
+            if case.get("share_ds"):
+                if not shared:
+                    shared.append(data.ContextWindowDataSet(data_dir, params=params, suppress_uttids=case["suppress_uttids"],
+                                                            warn_on_missing=False))
+                src = shared[0]
+            return data.ContextWindowDataLoader(src, params, shuffle=case["shuffle"], init_epoch=init_epoch,
                                                 seed=case["seed"], suppress_uttids=case["suppress_uttids"],
                                                 warn_on_missing=False)
 
         _run_epochs(case, make, lengths, verify, cl)
     if any(T < C for T in lengths):
         cl.add("window_wider_than_utterance")
+    if max(case["left"], case["right"]) >= 15:
+        cl.add("context_ge_15")
+    if lengths and max(lengths) >= 10:
+        cl.add("length_ge_10")
     if case["drop"]:
         cl.add("drop")
     if case["reverse"]:
@@ -628,11 +841,31 @@ def _window_check(case):
 @st.composite
 def _collate_case(draw, tier):
     kind = draw(st.sampled_from(["spect", "spect", "lang", "window"]))
-    n = draw(st.integers(1, 5))
+    lo = 0 if kind != "window" else 1
+    size = draw(_pick(["small"] * 5 + ["many", "long"]))
+    if size == "many":
+        # many items of small length / a few very long items: lengths expanded from two integers
+        n = draw(_pick(SIZES[:9] * 2 + SIZES[9:12]))
+        a, b = draw(st.integers(1, 7)), draw(st.integers(0, 7))
+        lens = [lo + (a * i + b) % 6 for i in range(n)]
+        rlens = [(b * i + a) % 5 for i in range(n)]
+    elif size == "long":
+        n = draw(st.integers(1, 3))
+        lens = [draw(_pick(SIZES[:15] + SIZES)) for _ in range(n)]
+        rlens = [draw(_pick([0, 1, 2] + SIZES[:15] + SIZES)) for _ in range(n)]
+    else:
+        n = draw(st.integers(1, 5))
+        lens = [draw(st.integers(lo, 5)) for _ in range(n)]
+        rlens = [draw(st.integers(0, 4)) for _ in range(n)]
     return {
         "kind": kind,
-        "lens": [draw(st.integers(0 if kind != "window" else 1, 5)) for _ in range(n)],
-        "rlens": [draw(st.integers(0, 4)) for _ in range(n)],
+        "lens": lens,
+        "rlens": rlens,
+        # memory layout of the feature / alignment / reference tensors (item i uses them rotated by i)
+        "layouts": [draw(st.sampled_from(LAYOUT_POOL)) for _ in range(3)],
+        "fdt": draw(st.sampled_from(["float32", "float32", "float64", "float16"])) if size == "small" else "float32",
+        # value class: some feature cells replaced by +-inf, NaN, the largest / smallest float32 magnitudes
+        "extreme": draw(st.sampled_from([None, None, None, 1, 2, 3])),
         "F": draw(st.integers(1, 3)),
         "C": draw(st.integers(1, 3)),
         "has_alis": draw(st.booleans()), "alis_none": draw(st.booleans()),
@@ -649,24 +882,63 @@ def _collate_case(draw, tier):
           doc="spect_seq_to_batch / lang_seq_to_batch / context_window_seq_to_batch on generated tensor lists (zero lengths, "
               "None alignments/references, 1-D/2-D references, every flag): rows cut back to the reported sizes == inputs, "
               "padding == 0 / INDEX_PAD_VALUE, ids stay on their rows",
-          required_classes=["spect", "lang", "window", "zero_length", "refs_none", "sorted", "time_major"])
+          required_classes=["spect", "lang", "window", "zero_length", "refs_none", "sorted", "time_major",
+                            "views", "layout_offset", "layout_colslice", "layout_transposed", "layout_strided",
+                            "non_finite_features", "items_ge_15", "items_ge_64", "length_ge_255", "length_ge_1023",
+                            "features_float16", "features_float64"])
 def _collate_check(case):
     import torch
     from pydrobert.torch import data
 
     kind, n = case["kind"], len(case["lens"])
-    ids = [_uid(case["perm"][i]) for i in range(n)]  # ids unrelated to the row order
+    ids = [_uid(i) for i in case["perm"]] if len(case["perm"]) == n else [_uid((7 * i + 3) % n) for i in range(n)]
     cl = {kind}
+    lay = case.get("layouts") or ["own"] * 3
+    fdt = case.get("fdt", "float32")
+    for x in set(lay):
+        if x != "own":
+            cl.update(["views", "layout_" + x])
+    if n >= 15:
+        cl.add("items_ge_15")
+    if n >= 64:
+        cl.add("items_ge_64")
+    longest = max(case["lens"] + (case["rlens"] if kind != "window" else []))
+    for lim in (255, 1023):
+        if longest >= lim:
+            cl.add("length_ge_%d" % lim)
+    if fdt != "float32" and kind == "spect":
+        cl.add("features_" + fdt)
+    SENT = 12345.25  # stands for NaN wherever feature values are compared
+
+    def canon(t):
+        return torch.where(t != t, torch.full_like(t, SENT), t)
+
+    def spoil(t, i):
+        """value class ``extreme``: cells of item i replaced by non-finite / extreme values (a pure function)"""
+        k = case.get("extreme")
+        if not k or t.numel() == 0:
+            return t
+        vals = [float("inf"), float("-inf"), float("nan"), 3.0e38, -3.0e38, 1.0e-45, -0.0]
+        if t.dtype == torch.float16:
+            vals = [float("inf"), float("-inf"), float("nan"), 65504.0, -65504.0, 6.0e-8, -0.0]
+        flat = t.reshape(-1).clone()
+        for j in range(k):
+            flat[(i * 5 + j * 3) % flat.numel()] = vals[(i + j + k) % len(vals)]
+        cl.add("non_finite_features")
+        return flat.reshape(t.shape)
+
     if kind == "window":
         C, F = case["C"], case["F"]
-        wins = [(torch.arange(T * C * F, dtype=torch.float32).reshape(T, C, F) + 100 * i) / 4 for i, T in enumerate(case["lens"])]
-        alis = [None if case["alis_none"] else torch.tensor([(i + t) % 5 for t in range(T)], dtype=torch.long)
+        wins = [dirs.with_layout(spoil((torch.arange(T * C * F, dtype=torch.float32).reshape(T, C, F) + 100 * i) / 4, i), lay[i % 3])
+                for i, T in enumerate(case["lens"])]
+        alis = [None if case["alis_none"] else
+                dirs.with_layout(torch.tensor([(i + t) % 5 for t in range(T)], dtype=torch.long), lay[(i + 1) % 3])
                 for i, T in enumerate(case["lens"])]
         seq = [(w, a, u) if case["has_uttids"] else (w, a) for w, a, u in zip(wins, alis, ids)]
         out = data.context_window_seq_to_batch(seq, case["has_uttids"])
         require(isinstance(out, tuple) and len(out) == (4 if case["has_uttids"] else 2), "tuple layout", len(out), None)
-        exp = [row for w in wins for row in w.tolist()]
-        require(out[0].tolist() == exp and list(out[0].shape) == [len(exp), C, F], "windows not concatenated in order",
+        exp = [row for w in wins for row in canon(w).tolist()]
+        require(canon(out[0]).tolist() == exp and list(out[0].shape) == [len(exp), C, F], "windows not concatenated in order",
                 out[0].tolist(), exp)
         if case["alis_none"]:
             require(out[1] is None, "alis must be None when an element has none", _show(out[1]), None)
@@ -689,31 +961,34 @@ def _collate_check(case):
             "uid": ids[i],
         })
 
-    def tens(it):
-        feat = torch.tensor(it["feat"], dtype=torch.float32).reshape(len(it["feat"]), case["F"])
-        ali = None if it["ali"] is None else torch.tensor(it["ali"], dtype=torch.long)
+    def tens(it, i):
+        feat = torch.tensor(it["feat"], dtype=dirs.DTYPES[fdt]).reshape(len(it["feat"]), case["F"])
+        feat = dirs.with_layout(spoil(feat, i), lay[i % 3])
+        it["feat"] = canon(feat).tolist()
+        ali = None if it["ali"] is None else dirs.with_layout(torch.tensor(it["ali"], dtype=torch.long), lay[(i + 1) % 3])
         ref = None
         if it["ref"] is not None:
             ref = torch.tensor(it["ref"], dtype=torch.long).reshape([len(it["ref"])] + ([3] if two_d else []))
+            ref = dirs.with_layout(ref, lay[(i + 2) % 3])
         return feat, ali, ref
 
     if kind == "spect":
         seq = []
-        for it in items:
-            feat, ali, ref = tens(it)
+        for i, it in enumerate(items):
+            feat, ali, ref = tens(it, i)
             tup = (feat,) + ((ali,) if case["has_alis"] else ()) + (ref,) + ((it["uid"],) if case["has_uttids"] else ())
             seq.append(tup)
         out = data.spect_seq_to_batch(seq, case["batch_first"], case["sort"], case["has_alis"], case["has_uttids"])
         _check_spect_batch(out, items, case["F"], case["batch_first"], case["sort"], case["has_alis"], case["has_uttids"],
-                           3 if two_d else 0)
+                           3 if two_d else 0, fdt=fdt, canon=canon)
         if case["refs_none"]:
             cl.add("refs_none")
         if 0 in case["lens"]:
             cl.add("zero_length")
     else:
         seq = []
-        for it in items:
-            ref = tens(it)[2]
+        for i, it in enumerate(items):
+            ref = tens(it, i)[2]
             seq.append((ref, it["uid"]) if case["has_uttids"] else ref)
         out = data.lang_seq_to_batch(seq, case["batch_first"], case["sort"], case["has_uttids"])
         _check_lang_batch(out, items, case["batch_first"], case["sort"], case["has_uttids"], 3 if two_d else 0)
@@ -737,25 +1012,251 @@ def _extract_enum(tier):
             for right in range(0, maxC + 1):
                 for t in range(T):
                     for reverse in (False, True):
-                        out.append({"T": T, "F": 1 + (T + left) % 2, "left": left, "right": right, "t": t, "reverse": reverse})
+                        for layout in dirs.LAYOUTS:
+                            out.append({"T": T, "F": 1 + (T + left) % 2, "left": left, "right": right, "t": t, "reverse": reverse,
+                                        "layout": layout, "fdt": "float64" if (T + right + t) % 3 == 0 else "float32"})
     return out
 
 
-@subcheck("C14", "extract_window_enum", _extract_enum, 0, 0, exhaustive=True,
-          doc="every (T<=6|9, left<=4|7, right<=4|7, frame, reverse): extract_window == frame indices clamped to [0, T-1]",
-          required_classes=["both_edges", "inside"])
-def _extract_check(case):
+def _extract_run(case):
     import torch
     from pydrobert.torch import data
 
     T, F = case["T"], case["F"]
+    fdt = case.get("fdt", "float32")
     feat_l = _feat_list(0, T, F)
-    feat = torch.tensor(feat_l, dtype=torch.float32).reshape(T, F)
+    if case.get("inf"):
+        # value class: +-inf among the frames (a window is a selection of frames, never an arithmetic combination)
+        for j in range(0, T, 3):
+            feat_l[j][j % F] = float("inf") if j % 2 else float("-inf")
+    own = torch.tensor(feat_l, dtype=dirs.DTYPES[fdt]).reshape(T, F)
+    feat = dirs.with_layout(own, case.get("layout"))
     out = data.extract_window(feat, case["t"], case["left"], case["right"], case["reverse"])
     exp = O.clamp_window(feat_l, case["t"], case["left"], case["right"], case["reverse"])
     require(list(out.shape) == [1 + case["left"] + case["right"], F] and out.tolist() == exp,
             "extract_window differs from index clamping", out.tolist(), exp)
+    require(out.dtype == feat.dtype, "extract_window changes the dtype", str(out.dtype), str(feat.dtype))
     require(feat.tolist() == feat_l, "extract_window modified its input", feat.tolist(), feat_l)
     lo, hi = case["t"] - case["left"] < 0, case["t"] + case["right"] > T - 1
     cl = ["both_edges" if lo and hi else "left_edge" if lo else "right_edge" if hi else "inside"]
+    if case.get("layout", "own") != "own":
+        cl += ["view", "layout_" + case["layout"]]
+    if fdt != "float32":
+        cl.append("features_" + fdt)
+    if case.get("inf"):
+        cl.append("non_finite_frames")
+    return lo, hi, cl
+
+
+@subcheck("C14", "extract_window_enum", _extract_enum, 0, 0, exhaustive=True,
+          doc="every (T<=6|9, left<=4|7, right<=4|7, frame, reverse, memory layout of the feature matrix): extract_window == "
+              "frame indices clamped to [0, T-1], same dtype (float32 / float64), input unchanged",
+          required_classes=["both_edges", "inside", "layout_offset", "layout_colslice", "layout_transposed", "layout_strided",
+                            "features_float64"])
+def _extract_check(case):
+    lo, hi, cl = _extract_run(case)
     return Info(nontrivial=lo or hi, classes=cl)
+
+
+def _extract_sizes(tier):
+    """T and the context widths on both sides of 16 / 32 / ... / 1024 / 2048; frames at the edges and in the middle"""
+    ctx = [0, 1, 15, 16, 17, 33, 64, 65, 1024, 1025]
+    Ts = SIZES if tier == "thorough" else [15, 16, 17, 32, 33, 64, 65, 128, 129, 256, 257, 1023, 1024, 1025, 2049]
+    out = []
+    for i, T in enumerate(Ts):
+        for j, left in enumerate(ctx):
+            for k, right in enumerate(ctx):
+                if tier == "quick" and (i + j + k) % 3:
+                    continue  # a third of the grid in the quick tier
+                for t in sorted({0, 1, 16, T // 2, T - 2, T - 1}):
+                    if not 0 <= t < T:
+                        continue
+                    out.append({"T": T, "F": 1 + (i + j) % 2, "left": left, "right": right, "t": t, "reverse": bool((j + k + t) % 2),
+                                "layout": dirs.LAYOUTS[(i + j + k + t) % len(dirs.LAYOUTS)],
+                                "fdt": "float64" if (i + k) % 4 == 0 else "float32", "inf": (j + k + t) % 5 == 0})
+    return out
+
+
+@subcheck("C14", "extract_window_sizes", _extract_sizes, 0, 0, exhaustive=True,
+          doc="the grid T in 15..2049 x left, right in {0,1,15,16,17,33,64,65,1024,1025} x frame in {0,1,16,T/2,T-2,T-1} "
+              "(quick: a third of it), layouts / dtype / reverse / +-inf frames rotating over the grid: extract_window == "
+              "index clamping",
+          required_classes=["both_edges", "inside", "left_edge", "right_edge", "view", "non_finite_frames"])
+def _extract_sizes_check(case):
+    lo, hi, cl = _extract_run(case)
+    if case["T"] >= 1023:
+        cl.append("T_ge_1023")
+    if max(case["left"], case["right"]) >= 1024:
+        cl.append("context_ge_1024")
+    return Info(nontrivial=lo or hi, classes=cl)
+
+
+# ---------------------------------------------------------------- 7. loaders at sizes across thresholds
+
+
+@st.composite
+def _loader_sizes_case(draw, tier):
+    kind = draw(_pick(["spect", "lang", "window", "spect", "lang", "window", "spect"]))
+    mode = draw(_pick(["many", "long", "many", "long", "many"]))
+    heavy = kind != "lang"   # three files per utterance
+    if mode == "many":
+        if tier == "quick":
+            table = SIZES[:9] * 3 + SIZES[9:12] + (SIZES[12:15] if not heavy else [])
+        else:
+            table = SIZES[:9] + SIZES[9:12] * 2 + SIZES[12:15] * 2 + (SIZES[15:] if not heavy else [])
+        N = draw(_pick(table))
+    else:
+        N = draw(st.integers(2, 6))
+    c = {
+        "kind": kind, "gen": {"mode": mode, "N": N, "L": draw(_pick([3, 7, 12])), "s0": draw(st.integers(0, len(SIZES) - 1)),
+                              "a": draw(st.integers(1, 7)), "b": draw(st.integers(0, 7)), "c": draw(st.integers(0, 5))},
+        "B": draw(_pick([1, 2, 3, 5, 15, 16, 17, 32, 33, 64, 65])),
+        "K": draw(_pick([1, 2, 3, 4, 15, 16, 17, 33])) if kind != "window" else 1,
+        "dyn": draw(st.booleans()) if kind != "window" else False,
+        "drop": draw(st.booleans()), "shuffle": draw(st.booleans()), "sort": draw(st.booleans()),
+        "batch_first": draw(st.booleans()), "suppress_uttids": draw(st.booleans()), "tokens_only": draw(st.booleans()),
+        "seed": draw(st.integers(0, 2 ** 31 - 1)), "init_epoch": draw(st.integers(0, 3)),
+        "pattern": ["plain"], "share_ds": draw(st.booleans()),
+        "layouts": [draw(st.sampled_from(LAYOUT_POOL)) for _ in range(3)], "fdt": draw(_pick(["float32", "float64"])),
+        "F": draw(st.integers(1, 2)), "ref_2d": draw(st.booleans()), "with_ali": draw(st.booleans()),
+        "with_ref": draw(_pick([True, True, False])), "suppress_alis": draw(st.booleans()),
+        "left": draw(_pick([0, 1, 2, 15, 16, 17])), "right": draw(_pick([0, 1, 2, 15, 16, 17])), "reverse": draw(st.booleans()),
+    }
+    if kind == "window":
+        c["K_ignored"] = True
+    return c
+
+
+def _expand_loader_sizes(case):
+    """lens / rlens of a generated-size loader case (a pure function of case["gen"])"""
+    g = case["gen"]
+    N, a, b, cc = g["N"], g["a"], g["b"], g["c"]
+    lo = 0 if (case["kind"] == "lang" and not (case["dyn"] and case["K"] > 1)) else 1
+    if g["mode"] == "many":
+        lens = [lo + (a * i + b) % g["L"] for i in range(N)]
+        rlens = [(cc * i + a) % 4 for i in range(N)]
+    else:
+        lens = [SIZES[(g["s0"] + a * i) % len(SIZES)] - (b if i % 2 else 0) for i in range(N)]
+        rlens = [SIZES[(g["s0"] + cc * i) % 15] for i in range(N)]
+    out = dict(case, lens=lens, rlens=rlens)
+    return out
+
+
+@subcheck("C14", "loader_sizes", _loader_sizes_case, quick=100, thorough=800,
+          doc="the three loaders over directories of 15..257 utterances (lang: ..2049 in the thorough tier) or of 2..6 "
+              "utterances 15..2049 frames / tokens long, batch sizes up to 65, up to 33 length buckets (lengths expanded "
+              "from a few integers by a pure function): the same laws as spect_loader / lang_loader / window_loader",
+          required_classes=["utterances_ge_15", "length_ge_100", "length_ge_1023", "batch_size_ge_15",
+                            "buckets_requested_ge_15", "buckets_ge_2", "spect", "lang", "window"])
+def _loader_sizes_check(case):
+    full = _expand_loader_sizes(case)
+    info = {"spect": _spect_check, "lang": _lang_check, "window": _window_check}[case["kind"]](full)
+    cl = set(info.classes) | {case["kind"]}
+    if case["kind"] == "window":
+        for lim in (10, 100, 1023):
+            if max(full["lens"]) >= lim:
+                cl.add("length_ge_%d" % lim)
+        if len(full["lens"]) >= 15:
+            cl.add("utterances_ge_15")
+        if case["B"] >= 15:
+            cl.add("batch_size_ge_15")
+    return Info(nontrivial=info.nontrivial, classes=sorted(cl))
+
+
+# ---------------------------------------------------------------- 8. the deprecated training / evaluation loaders
+
+# SpectTrainingDataLoader / SpectEvaluationDataLoader could not be constructed before /repo commits 6a7ea58 / 5dcccbf
+# (they handed ``seed`` to SpectDataLoader in the position of ``on_uneven_distributed``; the evaluation loader's
+# ``file_prefix`` defaulted to the *suffix*). The switch below kept the class out of the default path until those
+# repairs were merged; it is on now.
+ENABLE_DEPRECATED_LOADERS = True
+
+
+def _deprecated_on():
+    return ENABLE_DEPRECATED_LOADERS or os.environ.get("VERIF_ENABLE_DEPRECATED_LOADERS") == "1"
+
+
+@st.composite
+def _deprecated_case(draw, tier):
+    if not _deprecated_on():
+        return {"which": draw(st.sampled_from(["spect_train", "spect_eval"])), "disabled_when_generated": True}
+    which = draw(st.sampled_from(["spect_train", "spect_eval", "window_train", "window_eval"]))
+    c = _loader_common(draw, tier)
+    c.update({
+        "which": which, "lens": draw(_lengths(1, 7, 12)), "F": draw(st.integers(1, 2)),
+        "ref_2d": draw(st.booleans()), "with_ali": draw(st.booleans()), "with_ref": draw(st.sampled_from([True, True, False])),
+        "left": draw(st.integers(0, 3)), "right": draw(st.integers(0, 3)), "reverse": draw(st.booleans()),
+        "pass_seed": draw(st.booleans()),
+    })
+    c["rlens"] = [draw(st.integers(0, 3)) for _ in c["lens"]]
+    # what these classes fix by default (everything else is as generated)
+    train = which.endswith("train")
+    c.update({"shuffle": train, "sort": True, "suppress_alis": False, "tokens_only": False,
+              "suppress_uttids": train, "share_ds": False, "fdt": "float32"})
+    if which.startswith("window"):
+        c.update({"K": 1, "K_ignored": True, "dyn": False})
+    return c
+
+
+@subcheck("C14", "deprecated_loaders", _deprecated_case, quick=300, thorough=3000,
+          doc="SpectTrainingDataLoader / SpectEvaluationDataLoader / ContextWindowTrainingDataLoader / "
+              "ContextWindowEvaluationDataLoader with their own defaults (train: shuffled, ids suppressed; evaluation: "
+              "sequential, ids kept; sorted batches, alignments kept): the same laws as the loaders they wrap")
+def _deprecated_check(case):
+    from pydrobert.torch import data
+
+    if not _deprecated_on():
+        return Info(nontrivial=False, classes=["switched_off"])
+    if "lens" not in case:
+        return Info(nontrivial=False, classes=["generated_while_switched_off"])
+    cl = {case["which"]}
+    lengths = list(case["lens"])
+    window = case["which"].startswith("window")
+    train = case["which"].endswith("train")
+    with dirs.scratch_root() as root:
+        data_dir = os.path.join(root, "data")
+        _write_spect(data_dir, dict(case, with_ref=case["with_ref"] and not window))
+
+        def make(init_epoch):
+            extra = {"init_epoch": init_epoch, "warn_on_missing": False}
+            if case["pass_seed"] or train:
+                extra["seed"] = case["seed"]
+            if window:
+                params = data.ContextWindowDataLoaderParams(batch_size=case["B"], drop_last=case["drop"],
+                                                            context_left=case["left"], context_right=case["right"],
+                                                            reverse=case["reverse"])
+                klass = data.ContextWindowTrainingDataLoader if train else data.ContextWindowEvaluationDataLoader
+                return klass(data_dir, params, **extra)
+            params = data.SpectDataLoaderParams(batch_size=case["B"], num_length_buckets=case["K"],
+                                                size_batch_by_length=case["dyn"], drop_last=case["drop"])
+            klass = data.SpectTrainingDataLoader if train else data.SpectEvaluationDataLoader
+            return klass(data_dir, params, batch_first=case["batch_first"], **extra)
+
+        if window:
+            C = 1 + case["left"] + case["right"]
+            feats = [_feat_list(i, T, case["F"]) for i, T in enumerate(lengths)]
+            wins = [[O.clamp_window(f, t, case["left"], case["right"], case["reverse"]) for t in range(len(f))] for f in feats]
+            alis = [[(i + t) % 5 for t in range(T)] for i, T in enumerate(lengths)]
+
+            def verify(batch, idxs, probe):
+                want_len = 2 if train else 4
+                require(isinstance(batch, tuple) and len(batch) == want_len, "batch tuple layout", len(batch), want_len)
+                exp_w = [w for i in idxs for w in wins[i]]
+                require(list(batch[0].shape) == [len(exp_w), C, case["F"]] and batch[0].tolist() == exp_w,
+                        "windows are not the concatenated edge-replicated windows of the utterances", batch[0].tolist(), exp_w)
+                if case["with_ali"]:
+                    exp_a = [a for i in idxs for a in alis[i]]
+                    require(batch[1] is not None and batch[1].tolist() == exp_a, "alis are not the concatenated alignments",
+                            None if batch[1] is None else batch[1].tolist(), exp_a)
+                if not train:
+                    require(list(batch[3]) == [_uid(i) for i in idxs], "utterance ids", list(batch[3]), [_uid(i) for i in idxs])
+                return True
+        else:
+            items = _spect_items(case)
+
+            def verify(batch, idxs, probe):
+                return _check_spect_batch(batch, [items[i] for i in idxs], case["F"], case["batch_first"], True, True,
+                                          not train, 3 if case["ref_2d"] else 0, probe=probe, fdt="float32")
+
+        _run_epochs(case, make, lengths, verify, cl)
+    return Info(nontrivial=len(lengths) >= 2, classes=sorted(cl))
